@@ -162,12 +162,27 @@ def check_automaton(rep, d, starts, labels, L, inp, multiples=(1, 2, 3), full=Tr
                 rep.fail("shortest_path_views", err, {**inp, "root": repr(root)}); return False
     # --- relabelling
     if all(len(x) == 1 for x in labels):
-        mp = {l: chr(ord('x') + i) for i, l in enumerate(labels)}
-        Rn = F.rename_generators(mp, inplace=False)
-        Mn = M.copy(); Mn.rename(mp)
-        err = coherence_error(Rn, Mn)
-        if err:
-            rep.fail("relabelling_maps_language_letterwise", err, inp); return False
+        # all kinds of injective relabellings: onto fresh letters, a cyclic permutation of the alphabet (image overlaps the
+        # domain), a swap with the inverse-case letters; not in place and in place (on a copy built through the same route)
+        fresh = {l: chr(ord('x') + i) for i, l in enumerate(labels)}
+        cyc = {l: labels[(i + 1) % len(labels)] for i, l in enumerate(labels)}
+        shift = {l: (labels[i + 1] if i + 1 < len(labels) else "z") for i, l in enumerate(labels)}
+        case_swap = {**{l: l.upper() for l in labels}, **{l.upper(): l for l in labels}}
+        for mname, mp in (("fresh", fresh), ("cyclic", cyc), ("shift", shift), ("case_swap", case_swap)):
+            Mn = M.copy(); Mn.rename(mp)
+            Rn = F.rename_generators(mp, inplace=False)
+            err = coherence_error(Rn, Mn)
+            if not err:
+                G = build_by_route(d, starts, route)
+                G.rename_generators(mp, inplace=True) if mname != "fresh" else G.rename_generators(mp)
+                err = coherence_error(G, Mn)
+                if not err and Mn.E:
+                    (a_, l_, b_) = sorted(Mn.E, key=repr)[0]
+                    if not G.accepts((l_,) if len(l_) > 1 else l_, a_):
+                        err = f"renamed automaton (in place) does not accept {l_!r} from {a_!r}"
+                err = err and f"in place: {err}"
+            if err:
+                rep.fail("relabelling_maps_language_letterwise", f"{mname} map {mp}: {err}", inp); return False
     # --- the original is unchanged by the non-in-place operations
     if snapshot(F) != before:
         rep.fail("original_unchanged", "the automaton was modified by a non-in-place operation or a query", inp); return False
